@@ -5,7 +5,7 @@ from sim.core import FAILED
 from props.c08 import probes, bound
 
 ID = "C09"
-CASES = {"quick": 1200, "thorough": 20000}
+CASES = {"quick": 3000, "thorough": 20000}
 RULE = ("grammar workload of C08 (profiles forcing the suffix cache, the fast path of to_normal_form, A->A, unit "
         "cycles, nullable chains, empty languages) x value-hash schedule x PYTHONHASHSEED; each transformation's "
         "result is extracted, its bounded language computed by the reference AND by the library's own contains, "
